@@ -245,12 +245,26 @@ def check_polygon(ctx, case, rng):
     P, Q = case["P"], case["Q"]
     circ = {"cls": "Circle", "diameter": 2 * r0, "current": I, "position": P, "orientation": Q}
     # observers >= 0.2 radius from the wire
-    loc = []
-    while len(loc) < 4:
-        p = rng.normal(size=3) * r0 * 1.5
-        if abs(np.hypot(np.hypot(p[0], p[1]) - r0, p[2])) > 0.2 * r0:
-            loc.append(p)
-    obs = G.to_global(circ, np.array(loc))
+    # (at EVERY path index: the observers are fixed in the global frame while the loop moves along its path -
+    #  the first version only looked at path index 0 and a thorough run met an observer 0.03 r0 from the wire at
+    #  index 2, where even the 2048-gon is 1.3e-4 off)
+    def wire_dist(glob):
+        out = []
+        for m in range(len(P)):
+            q = G.to_local(circ, glob[None], m=m)[0]
+            out.append(abs(np.hypot(np.hypot(q[0], q[1]) - r0, q[2])))
+        return min(out)
+    obs = []
+    for _ in range(400):
+        g = G.to_global(circ, (rng.normal(size=3) * r0 * 1.5)[None])[0]
+        if wire_dist(g) > 0.2 * r0:
+            obs.append(g)
+        if len(obs) == 4:
+            break
+    if not obs:
+        ctx.count("polygon_case_without_admissible_observer")
+        return
+    obs = np.array(obs)
     try:
         Hc = fields([circ], obs, "H")
         errs = {}
